@@ -54,6 +54,9 @@ impl RateLimit {
 	pub fn new(raw_limits: &[(usize, String)]) -> Result<Self, Error> {
 		let mut limits = vec![];
 		for (nb, raw_duration) in raw_limits.iter() {
+			if *nb == 0 {
+				return Err("rate limit: the number of requests must be greater than zero".into());
+			}
 			let parsed_duration = parse_duration(raw_duration)?;
 			limits.push((*nb, parsed_duration));
 		}
